@@ -1,7 +1,10 @@
 import FxVerif.Model.C09
+import FxVerif.Model.C09Shape
 import FxVerif.Model.Util
 /-! line-protocol driver for the C09 model: `lake env lean --run Driver/C09.lean < ops.txt`
-`tx <gasLimit> <intrinsic> <program>`; the native store is instantiated with the list of applied effect ids. -/
+`tx <gasLimit> <intrinsic> <program>`; the native store is instantiated with the list of applied effect ids.  The shape of
+a precompile call's `Run` (writes outside the native action, recover(), gas meter) is looked up by ABI name in the
+regenerated table `Gen.C09.runFacts`: the model executes the methods as the source has them NOW. -/
 open FxVerif FxVerif.Util FxVerif.Model.C09
 
 abbrev NS := List Nat
@@ -13,13 +16,39 @@ def parseKind : String → Option Kind
   | "callcode" => some .callcode
   | _ => none
 
+/-- how a precompile call behaves: always succeeds / always fails / consumes resource `r` (fails when an earlier call that
+is still in the native store consumed it) / needs resource `r` unconsumed -/
+inductive Mode | ok | fail | use (r : Nat) | need (r : Nat)
+
+def resBase : Nat := 200000
+
+def parseMode (s : String) : Option Mode :=
+  match s.splitOn ":" with
+  | ["ok"] => some .ok
+  | ["fail"] => some .fail
+  | ["use", r] => r.toNat?.map .use
+  | ["need", r] => r.toNat?.map .need
+  | _ => none
+
+def markBase : Nat := 300000
+def leakBase : Nat := 400000
+
+/-- "<n>" or "<n>+<r>": n logs, one more when marker r is in the native store; a successful call sets marker r -/
+def parseLogs (s : String) : Option (Nat × Nat) :=
+  match s.splitOn "+" with
+  | [n] => n.toNat?.map (·, 0)
+  | [n, r] => match n.toNat?, r.toNat? with
+    | some n, some r => some (n, r)
+    | _, _ => none
+  | _ => none
+
 def hdrOf (id : Nat) (ws : List String) : Option (CallHdr NS) :=
   match ws with
-  | [callc, cap, stip, kind, xfer, sw, pOk, pFail] =>
+  | [callc, cap, stip, kind, xfer, funded, sw, pOk, pFail] =>
     match callc.toNat?, cap.toNat?, stip.toNat?, parseKind kind, pOk.toNat?, pFail.toNat? with
     | some callc, some cap, some stip, some kind, some pOk, some pFail =>
       some { callc, cap, stip, kind, xfer := if xfer == "1" then some (fun n => (100000 + id) :: n) else none,
-             swallow := sw == "1", pOk, pFail }
+             funded := fun _ => funded == "1", swallow := sw == "1", pOk, pFail }
     | _, _, _, _, _, _ => none
   | _ => none
 
@@ -43,26 +72,55 @@ partial def parseList : List String → Option (List (Prog NS) × List Nat × Li
     match parseList rest with
     | some (ns, ms, r) => some (.invalid :: ns, ms, r)
     | none => none
-  | "C" :: id :: a :: b :: c :: d :: e :: f :: g :: h :: "[" :: rest =>
+  | "C" :: id :: a :: b :: c :: d :: e :: f :: g :: h :: i :: "[" :: rest =>
     match id.toNat? with
     | some id =>
-      match hdrOf id [a, b, c, d, e, f, g, h], parseList rest with
+      match hdrOf id [a, b, c, d, e, f, g, h, i], parseList rest with
       | some hd, some (body, ms1, r1) =>
         match parseList r1 with
         | some (ns, ms2, r2) => some (.call hd body :: ns, ms1 ++ ms2, r2)
         | none => none
       | _, _ => none
     | none => none
-  | "P" :: id :: a :: b :: c :: d :: e :: f :: g :: h :: req :: mode :: w :: _name :: rest =>
-    match id.toNat?, req.toNat? with
-    | some id, some req =>
-      match hdrOf id [a, b, c, d, e, f, g, h], parseList rest with
-      | some hd, some (ns, ms, r) =>
-        let act : Action NS := fun ro n =>
-          if (ro && w == "1") || mode != "ok" then (false, 999999 :: n, [id]) else (true, id :: n, [id])
-        some (.pre hd req act :: ns, ms, r)
+  | "P" :: id :: a :: b :: c :: d :: e :: f :: g :: h :: i :: req0 :: mode :: w0 :: name :: extra :: lgs :: rest0 =>
+    -- the EVM call made from inside the native action: `-` or `[ <gas allowance> <token program> ]`
+    let innerP : Option (List (Nat × List (Prog NS)) × List Nat × List String) :=
+      match rest0 with
+      | "-" :: rest => some ([], [], rest)
+      | "[" :: g :: rest =>
+        match g.toNat?, parseList rest with
+        | some g, some (body, ms, r) => some ([(g, body)], ms, r)
+        | _, _ => none
+      | _ => none
+    match id.toNat?, req0.toNat?, parseMode mode, parseLogs lgs, extra.toNat?, innerP with
+    | some id, some req0, some md, some (nlog, mark), some extra, some (inner, ims, rest) =>
+      match hdrOf id [a, b, c, d, e, f, g, h, i], parseList rest with
+      | some hd, some (ns, ms0, r) =>
+        let ms := ims ++ ms0
+        -- RequiredGas and IsReadonly come from the regenerated method table, not from the harness
+        let mrow := FxVerif.Gen.C09.methods.find? (fun m => m.abiName == name)
+        let req := match mrow with | some m => m.requiredGas | none => req0
+        let w := match mrow with | some m => (if m.readonly then "0" else "1") | none => w0
+        let rf := factsOf name
+        let sh := match rf with | some rf => shapeOf rf | none => RunShape.tidy
+        let met := match rf with | some rf => metered rf | none => false
+        -- a failing action half-writes (999999) and emits its logs before it fails
+        let act : ActionX NS := fun ro gasLeft n =>
+          let lg := List.replicate (nlog + (if mark != 0 && n.contains (markBase + mark) then 1 else 0)) id
+          let n' := if mark != 0 then (markBase + mark) :: n else n
+          if ro && w == "1" then (.err, 999999 :: n, lg) else
+          -- a method that meters its native work against the gas left in the frame panics part-way when that runs out
+          if met && gasLeft < extra then (.panic, 999999 :: n, lg) else
+          match md with
+          | .ok => (.ok, id :: n', lg)
+          | .fail => (.err, 999999 :: n, lg)
+          | .use r => if n.contains (resBase + r) then (.err, 999999 :: n, lg) else (.ok, id :: (resBase + r) :: n', lg)
+          | .need r => if n.contains (resBase + r) then (.err, 999999 :: n, lg) else (.ok, id :: n', lg)
+        -- what `Run` writes outside the native action (only performed when the regenerated shape says it does)
+        let out : NS → NS := fun n => (leakBase + id) :: n
+        some (.pre hd req sh out inner act :: ns, ms, r)
       | _, _ => none
-    | _, _ => none
+    | _, _, _, _, _, _ => none
   | _ => none
 
 def showNats (xs : List Nat) : String :=
@@ -77,10 +135,27 @@ def step (st : Unit) (line : String) : Unit × String :=
       if gl < intr then (st, "rejected") else
       let v0 : View NS := { slots := fun _ => 0, native := [], logs := [] }
       let r := runTx (toks.length + 10) (gl - intr) prog v0
-      let status := match r.1 with | .ok => "ok" | .revert => "revert" | .fail => "fail"
+      let status := match r.1 with | .ok => "ok" | .revert => "revert" | .fail => "fail" | .abort => "abort"
       let ms := markers.filter (fun k => r.2.1.slots k != 0)
       let kept := r.2.1.native.filter (· < 100000)
-      (st, s!"{status} markers={showNats ms} kept={showNats kept} ref=same")
+      let used := (gl - intr) - r.2.2
+      -- anything committed that is not the effect of a kept call: a write made outside a native action, a half-written store
+      let leak := r.2.1.native.any (fun x => x == 999999 || x ≥ leakBase)
+      (st, s!"{status} gas={used} markers={showNats ms} kept={showNats kept} logs={r.2.1.logs.length} ref={if leak then "diff" else "same"}")
+    | _, _, _ => (st, "bad-op")
+  | "direct" :: gl :: intr :: toks =>
+    -- the transaction's `to` is the precompile: one precompile node, no caller frame
+    match gl.toNat?, intr.toNat?, parseList toks with
+    | some gl, some intr, some ([.pre hd req sh out inner act], markers, []) =>
+      if gl < intr then (st, "rejected") else
+      let v0 : View NS := { slots := fun _ => 0, native := [], logs := [] }
+      let r := runTxPre (toks.length + 10) (gl - intr) hd.xfer req sh out inner act v0
+      let status := match r.1 with | .ok => "ok" | .revert => "revert" | .fail => "fail" | .abort => "abort"
+      let ms := markers.filter (fun k => r.2.1.slots k != 0)
+      let kept := r.2.1.native.filter (· < 100000)
+      let used := (gl - intr) - r.2.2
+      let leak := r.2.1.native.any (fun x => x == 999999 || x ≥ leakBase)
+      (st, s!"{status} gas={used} markers={showNats ms} kept={showNats kept} logs={r.2.1.logs.length} ref={if leak then "diff" else "same"}")
     | _, _, _ => (st, "bad-op")
   | _ => (st, "bad-op")
 
